@@ -23,7 +23,12 @@ class Ref(Expression):
         return self.name
 
     def _compile(self, out, flags):
-        if flags.uses_context and not self.is_local:
+        # "super.X" is the definition that the parent of *this* grammar sees. It
+        # must not be looked up through the run-time context, which belongs to
+        # the most derived grammar.
+        is_super = self.resolved.startswith('_super_ctx.')
+
+        if flags.uses_context and not self.is_local and not is_super:
             func = Code(f'_ctx.{self.resolved}')
         else:
             func = Code(self.resolved)
